@@ -685,6 +685,8 @@ MUTANTS = [
            expect_rule="segmentation/invariant"),
     Mutant("v2-parser-buffer-dropped-while-header-incomplete", V2, "        if len(self.buffer) < size:\n            return (None, None)\n",
            "        if len(self.buffer) < size:\n            self.buffer = self.buffer[:16]\n            return (None, None)\n", expect_rule="segmentation/invariant"),
+    Mutant("F47u-reverted-protocol-field-needs-a-second-space", V1, "        networkProtocol, _, line = line.partition(b\" \")\n",
+           "        with convertError(ValueError, InvalidNetworkProtocol):\n            networkProtocol, line = line.split(b\" \", 1)\n", expect_rule="parse/v1-evaluated"),
     Mutant("v1-unknown-not-allowed", V1, "    ALLOWED_NET_PROTOS = (\n        TCP4_PROTO,\n        TCP6_PROTO,\n        UNKNOWN_PROTO,\n    )", "    ALLOWED_NET_PROTOS = (\n        TCP4_PROTO,\n        TCP6_PROTO,\n    )",
            expect_rule="v1table/allowed-protocols"),
 ]
